@@ -143,3 +143,58 @@ V_ENSURES(V_IMP(g_lock_ret == 0, g.join_calls == g_j0 + g_threads->len))        
 V_ENSURES(V_IMP(g_lock_ret == 0 && V_RET == 0, !(g_pool->init_state & INITED_STARTED)))
 ;
 #endif
+
+#if defined(V_POOL_FREE) || defined(V_POOL_CLEAR)
+/* teardown (m_thpool_free) and m_thpool_clear */
+V_CONTRACT
+static int wait_pool(m_thpool_t *pool, thpool_shutdown_t shutdown)
+V_REQUIRES(pool == g_pool && !g_lock_held)
+V_REQUIRES(g.conddestroy_calls == 0 && g.mutexdestroy_calls == 0 && g.qfree_calls == 0 && g.lfree_calls == 0)               /*@C06.workers-awaited-before-anything-they-use-is-destroyed*/
+V_ASSIGNS(g.waitpool_calls, g.waitpool_mode)
+V_ENSURES(V_RET == g_wait_ret && g.waitpool_calls == V_OLD(g.waitpool_calls) + 1 && g.waitpool_mode == (int)shutdown)
+;
+V_CONTRACT int v_cond_destroy(pthread_cond_t *c) V_REQUIRES(c == &g_pool->notify) V_ASSIGNS(g.conddestroy_calls) V_ENSURES(V_RET == 0 && g.conddestroy_calls == V_OLD(g.conddestroy_calls) + 1);
+V_CONTRACT int v_mutex_destroy(pthread_mutex_t *m) V_REQUIRES(m == &g_pool->lock && !g_lock_held) V_ASSIGNS(g.mutexdestroy_calls) V_ENSURES(V_RET == 0 && g.mutexdestroy_calls == V_OLD(g.mutexdestroy_calls) + 1);
+V_CONTRACT int m_queue_free(m_queue_t **q) V_REQUIRES(q == &g_pool->tasks) V_ASSIGNS(g.qfree_calls, g_pool->tasks) V_ENSURES(V_RET == 0 && g.qfree_calls == V_OLD(g.qfree_calls) + 1 && g_pool->tasks == NULL);
+V_CONTRACT int m_list_free(m_list_t **l) V_REQUIRES(l == &g_pool->threads) V_ASSIGNS(g.lfree_calls, g_pool->threads) V_ENSURES(V_RET == 0 && g.lfree_calls == V_OLD(g.lfree_calls) + 1 && g_pool->threads == NULL);
+V_CONTRACT
+int m_queue_clear(m_queue_t *q)
+V_REQUIRES(q == g_tasks && V_Q_OK(g_tasks) && g_lock_held)                                                                   /*@C06.queue-touched-only-under-the-mutex*/
+V_ASSIGNS(g_tasks->len, g_tasks->first, g_tasks->last, g.qclear_calls)
+V_ENSURES(V_RET == 0 && g_tasks->len == 0 && g.qclear_calls == V_OLD(g.qclear_calls) + 1)
+;
+#endif
+#ifdef V_POOL_FREE
+#define V_STAGES_OK(s) ((s) == 0 || (s) == 0x01 || (s) == 0x03 || (s) == 0x07 || (s) == 0x0f || (s) == 0x1f)
+V_CONTRACT
+int m_thpool_free(m_thpool_t **pool, bool wait_all)
+V_REQUIRES(v_base_ok() && (pool == NULL || (pool == &g_poolref && (g_poolref == NULL || (g_poolref == g_pool && V_RW_OK(g_pool, sizeof(m_thpool_t)) && V_STAGES_OK(g_pool->init_state))))) && !g_lock_held)
+V_REQUIRES(g.conddestroy_calls == 0 && g.mutexdestroy_calls == 0 && g.qfree_calls == 0 && g.lfree_calls == 0 && g.waitpool_calls == 0 && g_fc0 == g_free_calls)
+V_ASSIGNS(pool != NULL && g_poolref != NULL: g.waitpool_calls, g.waitpool_mode, g.conddestroy_calls, g.mutexdestroy_calls, g.qfree_calls, g.lfree_calls, g_pool->tasks, g_pool->threads,
+          g_free_calls, g_free_arg, g_free_arg0, g_poolref)
+V_FREES(g_pool)
+V_ENSURES(V_IMP(pool == NULL || V_OLD(g_poolref) == NULL, V_RET == -EINVAL && g_free_calls == g_fc0))
+/* a started pool is waited for first -- for everything queued when asked to wait for all, otherwise for the tasks in progress -- and only then are the condition
+ * variable, the mutex, the task queue and the thread list given up (the order is the precondition of the wait_pool contract above); each stage that was
+ * initialised is undone exactly once, stages that were never reached are left alone */
+V_ENSURES(V_IMP(pool != NULL && V_OLD(g_poolref) != NULL, g.waitpool_calls == ((V_OLD(g_pool->init_state) & INITED_STARTED) ? 1 : 0)
+                && V_IMP(V_OLD(g_pool->init_state) & INITED_STARTED, g.waitpool_mode == (wait_all ? SHUTDOWN_WAITALL : SHUTDOWN_WAITCURR))))                 /*@C06.free-waits-for-all-or-for-current-tasks-as-asked*/
+V_ENSURES(V_IMP(pool != NULL && V_OLD(g_poolref) != NULL && (g_wait_ret == 0 || !(V_OLD(g_pool->init_state) & INITED_STARTED)),
+                g.conddestroy_calls == ((V_OLD(g_pool->init_state) & INITED_COND) ? 1 : 0) && g.mutexdestroy_calls == ((V_OLD(g_pool->init_state) & INITED_MUT) ? 1 : 0)
+                && g.qfree_calls == ((V_OLD(g_pool->init_state) & INITED_TASKS) ? 1 : 0) && g.lfree_calls == ((V_OLD(g_pool->init_state) & INITED_THREADS) ? 1 : 0)))   /*@C06.each-initialised-stage-undone-exactly-once*/
+V_ENSURES(V_IMP(pool != NULL && V_OLD(g_poolref) != NULL, V_RET == 0 && g_poolref == NULL && g_free_calls == g_fc0 + 1 && g_free_arg == (void *)V_OLD(g_poolref)))  /*@C04.pool-record-released-once-and-handle-cleared*/
+;
+#endif
+#ifdef V_POOL_CLEAR
+V_CONTRACT
+ssize_t m_thpool_clear(m_thpool_t *pool)
+V_REQUIRES(v_base_ok() && (pool == NULL || (pool == g_pool && V_POOL_OK)) && !g_lock_held)
+V_ASSIGNS(pool != NULL: g_lock_held, g.lock_calls, g.unlock_calls, V_SHARED, g.qclear_calls)
+V_ENSURES(!g_lock_held)                                                                                                      /*@C06.mutex-released-on-every-path*/
+V_ENSURES(V_IMP(pool == NULL, V_RET == -EINVAL) && V_IMP(pool != NULL && (V_OLD(g_pool->shutdown) != SHUTDOWN_NO || !(g_pool->init_state & INITED_STARTED)), V_RET == -EPERM && g.lock_calls == V_OLD(g.lock_calls)))
+/* pending (not yet started) tasks are dropped under the mutex, in one step: none of them can be picked up by a worker half-way */
+V_ENSURES(V_IMP(pool != NULL && V_OLD(g_pool->shutdown) == SHUTDOWN_NO && (g_pool->init_state & INITED_STARTED) && g_lock_ret == 0, g.qclear_calls == V_OLD(g.qclear_calls) + 1 && g_tasks->len == 0
+                && g.unlock_calls == V_OLD(g.unlock_calls) + 1))                                                                /*@C06.pending-tasks-dropped-under-the-mutex*/
+V_ENSURES(V_IMP(pool != NULL && V_OLD(g_pool->shutdown) == SHUTDOWN_NO && (g_pool->init_state & INITED_STARTED) && g_lock_ret != 0, V_RET == g_lock_ret && g.qclear_calls == V_OLD(g.qclear_calls)))
+;
+#endif
